@@ -222,3 +222,105 @@ func TestTickerWorker(t *testing.T) {
 		t.Fatalf("findings %v outcomes %v", fs, st.Outcomes)
 	}
 }
+
+// Channel happens-before edges as the race detector sees them (run with -race): data handed
+// over a buffered reply channel, a channel used as a semaphore, and data published by close.
+// None of these is a race in Go, so none may be reported here.
+type hbBox struct{ req, reply, counter, published int }
+
+//go:noinline
+func (b *hbBox) incr() { b.counter++ }
+
+func TestChannelEdgesForRaceDetector(t *testing.T) {
+	sc := Scenario{Name: "t", New: func() Instance {
+		return &chanInst{body: func(log *[]string) {
+			b := &hbBox{}
+			reqs := MakeChan(make(chan *hbBox))
+			GoLib(func() { // writer: takes a request, answers on a buffered reply channel
+				for {
+					r, ok := RecvOk[*hbBox](reqs)
+					if !ok {
+						return
+					}
+					r.reply = r.req + 1
+				}
+			})
+			reply := MakeChan(make(chan int, 1))
+			GoLib(func() {
+				b.req = 41
+				x := &hbBox{req: b.req}
+				Send(reqs, x)
+				Send(reply, 1)
+			})
+			RecvT[int](reply)
+			_ = b.req // written before the send on reply
+			sem := MakeChan(make(chan struct{}, 1))
+			for i := 0; i < 2; i++ {
+				Go(func() {
+					Send(sem, struct{}{})
+					b.incr()
+					RecvT[struct{}](sem)
+				})
+			}
+			done := MakeChan(make(chan struct{}))
+			Go(func() { b.published = 7; Close(done) })
+			Recv(done)
+			_ = b.published
+			Join()
+			logAdd(log, fmt.Sprint(b.counter))
+		}}
+	}}
+	st, fs := Explore(sc, Opts{Bound: 2, Recheck: 1})
+	if len(fs) != 0 || len(st.Outcomes) != 1 || st.Outcomes["[2]"] == 0 {
+		t.Fatalf("findings %v outcomes %v", fs, st.Outcomes)
+	}
+}
+
+// The same through general selects on an unbuffered channel (a request handed to a worker
+// that answers on a buffered reply channel).
+func TestSelectEdgesForRaceDetector(t *testing.T) {
+	type req struct {
+		args  []int
+		reply chan int
+	}
+	sc := Scenario{Name: "t", New: func() Instance {
+		return &chanInst{body: func(log *[]string) {
+			writes := MakeChan(make(chan *req))
+			quit := MakeChan(make(chan struct{}))
+			GoLib(func() {
+				for {
+					r := SelectR(false, RecvCase(quit), RecvCase(writes))
+					switch r.I {
+					case 0:
+						return
+					case 1:
+						q := ValOf(r, (<-chan *req)(writes))
+						s := 0
+						for _, a := range q.args {
+							s += a
+						}
+						Send(q.reply, s)
+					}
+				}
+			})
+			var got [2]int
+			for i := 0; i < 2; i++ {
+				i := i
+				Go(func() {
+					q := &req{args: []int{i, 1}, reply: MakeChan(make(chan int, 1))}
+					r := SelectR(false, SendCase(writes, q), RecvCase(quit))
+					if r.I == 0 {
+						got[i] = RecvT[int](q.reply)
+					}
+				})
+			}
+			Join()
+			Close(quit)
+			logAdd(log, fmt.Sprint(got[0]+got[1]))
+		}}
+	}}
+	st, fs := Explore(sc, Opts{Bound: 2, Recheck: 1})
+	if len(fs) != 0 || len(st.Outcomes) != 1 || st.Outcomes["[3]"] == 0 {
+		t.Fatalf("findings %v outcomes %v", fs, st.Outcomes)
+	}
+}
